@@ -157,7 +157,8 @@ SPEC = {
              'multiset of gate-variable value columns == evaluated cone gates, variable count, '
              'Cnf.from_circuit == tseytin_transformation, is_circuit_satisfiable answer and model. '
              'Non-trivial: >=1 gate clause and both a satisfiable and an unsatisfiable row; distinct by '
-             'hash of netlist + selection.'),
+             'hash of netlist + selection.'
+             " Added during the build: n-ary gates with up to 13 operands, near-duplicate gates incl. the same ordered operand pair under another type, and every returned formula is written to through add_clause (formulas are the caller's; zero-clause formulas must not share storage)."),
     'assumptions': ['own DPLL (vlib/sat.py) decides CNF + fixed inputs; z3-backed pysat stand-in used only for is_circuit_satisfiable, its models are re-checked'],
     'subs': [Sub('tseytin', cases, check_tseytin, {'quick': 2500, 'thorough': 200000})],
     'required_classes': {'tseytin': ['nary_xor', 'tautological_top', 'sel:sub', 'sel:empty', 'LR_gate',
